@@ -763,6 +763,10 @@ func (r *run) execConvert(fr *frame, st *State, x *ssa.Convert, reach string) Va
 			r.assume("true", fmt.Sprintf("(and (= (len_Int %s) %s) (<= (len_Int %s) (cap_Int %s)) (own_Int %s) (nn_Int %s))", res.Term, rl, res.Term, res.Term, res.Term, res.Term))
 			res.Rune = &runeSrc{S: v.Term, Lo: "0", Hi: rl}
 			r.assumed["assumed contract: []rune(s) has one element per character (rlenS), string(runes[a:b]) is the character slice rsubS(s,a,b)"] = true
+		} else {
+			// []byte(s): a fresh slice with one element per byte, each the byte of s there
+			m := strings.TrimPrefix(ts, "Slice_")
+			r.assume("true", fmt.Sprintf("(and (= (len_%s %s) (str.len %s)) (<= (len_%s %s) (cap_%s %s)) (own_%s %s) (nn_%s %s))", m, res.Term, v.Term, m, res.Term, m, res.Term, m, res.Term, m, res.Term))
 		}
 		return res
 	case strings.HasPrefix(fs, "Slice_") && ts == "String":
